@@ -2,6 +2,7 @@
 C16 — property theorems (derivation trees: UDF / UDX / dictionary round trips, navigation).
 -/
 import Verif.C16.Scan
+import Verif.C16.Parent
 
 namespace Verif.C16
 
@@ -43,22 +44,44 @@ theorem stack_roundtrip (udx : Bool) (ind : Option Nat) (lvl : Nat) (t : Node) (
     (hn : t.isTerm = false) : run (evs udx ind lvl t) [] = .ok (view udx t) :=
   run_evs_top udx ind lvl t hwf hn
 
--- FULL STATEMENT (not proved): ∀ udx ind t, WF t → ¬t.isTerm → topCheck (view udx t) = ok (view udx t) →
---   fromString (toUdf udx ind t) = .ok (view udx t)
--- Missing hypothesis `hscan`: the lexical lemma `scan (inner udx ind 1 t) = evs udx ind 1 t` (the
--- character-level emulation of `_udf_re.finditer` yields the expected match list on serialized text).
--- It is tied by the correspondence run instead: the driver's `scan` is compared with the match list of
--- the real `_udf_re.finditer` on every generated text, and `fromString (toUdf …)` with `from_string`.
-/-- "Parsing the UDF or UDX text of any derivation … at any indentation": `from_string(to_udf(t))`
-is the tree itself (UDX) or the tree without head marks and types (UDF). -/
-theorem udf_roundtrip_partial (udx : Bool) (ind : Option Nat) (t : Node) (hwf : WF t = true)
-    (hn : t.isTerm = false) (htop : topCheck (view udx t) = .ok (view udx t))
-    (hscan : scan (inner udx ind 1 t) = evs udx ind 1 t) :
+/-- the lexical half: the character-level emulation of `_udf_re.finditer` (terminal alternative
+first, then node header, `)`, root symbol; unmatched white space and `(` skipped) run on the
+serialization of a tree — any indentation, any level, UDF or UDX — yields exactly the match list
+`evs`: one node/root match per non-terminal (consuming the `(` of its first daughter), one terminal
+match per terminal carrying the raw token text, one `)` match per non-terminal. -/
+theorem scan_serialized (udx : Bool) (ind : Option Nat) (lvl : Nat) (t : Node) (hwf : WF t = true) :
+    scan (inner udx ind lvl t) = evs udx ind lvl t :=
+  scan_tree udx ind lvl t hwf
+
+/-- "Parsing the UDF or UDX text of any derivation … at any indentation … the parsed tree equals the
+original in node identifiers, entities, scores as printed, spans, head marks, lexical types, terminal
+forms and token structures": `from_string(to_udx(t, indent)) = t` and
+`from_string(to_udf(t, indent)) = t without head marks and types`, for every tree of the format's
+domain (`WF`) that `Derivation` accepts as a top node (`topCheck`), every indentation. -/
+theorem udf_roundtrip (udx : Bool) (ind : Option Nat) (t : Node) (hwf : WF t = true)
+    (hn : t.isTerm = false) (htop : topCheck t = .ok t) :
     fromString (toUdf udx ind t) = .ok (view udx t) := by
   obtain ⟨a, ha⟩ := inner_snoc udx ind 1 t
   have hend : endsWithParen ('(' :: inner udx ind 1 t) = true := by
     rw [ha]; exact endsWithParen_snoc ('(' :: a)
-  simp only [toUdf, fromString, hend, if_true, hscan, stack_roundtrip udx ind 1 t hwf hn, htop]
+  simp only [toUdf, fromString, hend, if_true, scan_serialized udx ind 1 t hwf,
+    stack_roundtrip udx ind 1 t hwf hn, topCheck_view udx t htop]
+
+/-- the whole sentence: parse the text written at indentation `i`, write it again at any
+indentation `j`: the text of the original at `j`. -/
+theorem udf_text_roundtrip (udx : Bool) (i j : Option Nat) (t : Node) (hwf : WF t = true)
+    (hn : t.isTerm = false) (htop : topCheck t = .ok t) :
+    (fromString (toUdf udx i t)).map (toUdf udx j) = .ok (toUdf udx j t) := by
+  rw [udf_roundtrip udx i t hwf hn htop]
+  show Except.ok (toUdf udx j (view udx t)) = _
+  cases udx with
+  | true => rfl
+  | false => simp only [view, toUdf, Bool.false_eq_true, if_false, inner_eraseHT]
+
+/-- the hypotheses are satisfiable: `(root (1 ^a@typ -1 0 2 (2 b 0 0 1 ("x" 1 "t \"q\"")) (3 c 0 1 2 ("y"))))` -/
+example : WF (.root ['r'] [.node 1 ['a'] ['-', '1'] 0 2 true (some ['t'])
+    [.node 2 ['b'] ['0'] 0 1 false none [.term ['x'] [⟨1, ['t', ' ', '\\', '"', 'q', '\\', '"']⟩]],
+     .node 3 ['c'] ['0'] 1 2 false none [.term ['y'] []]]]) = true := by decide
 
 /-- "… and serializing it again, at any indentation, reproduces the text": the tree a reader of the
 text gets (`view`) serializes, at every indentation `j`, to the text of the original. -/
@@ -117,5 +140,49 @@ theorem nodes_classes (t : Node) :
     (∀ n ∈ preterminals t, n.isTerm = false ∧ n.dtrs.any Node.isTerm = true) ∧
     (∀ n ∈ internals t, n.isTerm = false ∧ n.dtrs.any Node.isTerm = false) :=
   ⟨terminals_class t, preterminals_class t, internals_class t⟩
+
+/-- "only the top node may be a root", for `from_dict` (1/2): whatever the dictionary, a derivation
+returned by `from_dict` has no root among the daughters of its top node (constructor check). -/
+theorem fromDict_top_daughters_not_root (d : D) (t : Node) (h : fromDict d = .ok t) :
+    t.dtrs.any Node.isRoot = false := by
+  unfold fromDict at h
+  split at h
+  · cases h
+  · exact (topCheck_ok_eq _ _ h).2
+
+/-- "only the top node may be a root", for `from_dict` (2/2): if every entry below the top of the
+dictionary carries an `id` (as every dictionary written by `to_dict` for a tree without inner roots
+does), no node below the top of the derivation built by `from_dict` is a root, at any depth. -/
+theorem fromDict_no_root_below_top (d : D) (t : Node) (hid : DtrsHaveIds d = true)
+    (h : fromDict d = .ok t) : NoRootL t.dtrs = true := by
+  unfold fromDict at h
+  split at h
+  · cases h
+  · rename_i n hn
+    have := (topCheck_ok_eq _ _ h).1
+    subst this
+    exact fromDictAux_dtrs_noRoot d hid n hn
+
+/-- the `id` hypothesis is needed: `_from_dict` appends daughters after construction, so an entry
+without `id` two levels below the top becomes a root that no check sees. -/
+theorem fromDict_inner_root_witness :
+    (match fromDict (.mk (some ['a']) (some 1) none none none none false none none (some [
+        .mk (some ['b']) (some 2) none none none none false none none (some [
+          .mk (some ['r']) none none none none none false none none (some [
+            .mk (some ['c']) (some 3) none none none none false (some ['x']) none none])])])) with
+     | .ok t => NoRootL t.dtrs
+     | .error _ => true) = false := by decide
+
+/-- "each node's parent is the node that lists it as a daughter" (model level): run the stack
+machine of `_from_string` with an annotation layer that numbers every pushed frame and records, for
+every node and terminal at creation, the number of the frame then on top of the stack (the
+`parent=stack[-1]` argument; root symbols are created without a parent).  For EVERY match list —
+well-formed text or not — the annotation layer does not change the result of `run`, and in the tree
+returned every terminal and every non-root node names as its parent exactly the node whose daughters
+list it was appended to (`Cons`). -/
+theorem parent_spec (evs : List Ev) :
+    (runP evs 0 []).map Prod.snd = run evs [] ∧
+    ∀ t, runP evs 0 [] = .ok t → Cons t.1 = true :=
+  ⟨runP_snd evs 0 [], fun t h => runP_consistent evs 0 [] t trivial h⟩
 
 end Verif.C16
